@@ -110,6 +110,14 @@ def gen_finder(rng, sh, b):
     if rng.random() < 0.1:
         tags = [rng.choice(PLAIN)] + ([('?' if rng.random() < 0.5 else '') + rng.choice(PLAIN)] if rng.random() < 0.5 else [])
         prefix = ''
+    # assumption of the check: the tags of one finder call are distinct (case-insensitively)
+    seen, uniq = set(), []
+    for t in tags:
+        k = t.lstrip('?').lower()
+        if k not in seen:
+            seen.add(k)
+            uniq.append(t)
+    tags = uniq
     if kind == 'oradd' and prefix:
         sh.loops.setdefault((b, cat.lower()), [t.lstrip('?').lower() for t in tags])
     return '%s %s %s' % (kind, hx(prefix), lst(tags)), len(tags), cat
@@ -176,7 +184,7 @@ def gen_op(rng, sh):
             t = 'append ' + lst(gen_row(rng, width))
         elif q < 0.62:
             s = rint(rng, -1, 3)
-            t = 'rmrows %d %d' % (s, s + 1 if rng.random() < 0.6 else rint(rng, -1, 4))
+            t = 'rmrows %d %d' % (s, min(s + 1, 2147483647) if rng.random() < 0.6 else rint(rng, -1, 4))
         elif q < 0.74:
             t = 'moverow %d %d' % (rint(rng, -3, 3), rint(rng, -3, 3))
         elif q < 0.87:
